@@ -162,11 +162,18 @@ impl Tally {
         // keep the first few per class so that a flood of one class cannot hide another
         let same = self.violations.iter().filter(|v| v.class == class).count();
         if same < MAX_KEPT {
-            self.violations.push(Violation {
-                class: class.to_string(),
-                what: what.into(),
-                case,
-            });
+            // (a message that quotes a megabyte-long value is cut: the case holds the input)
+            let mut what: String = what.into();
+            if what.len() > 3000 {
+                let total = what.len();
+                let mut cut = 3000;
+                while !what.is_char_boundary(cut) {
+                    cut -= 1;
+                }
+                what.truncate(cut);
+                what.push_str(&format!(" ... ({total} bytes in all)"));
+            }
+            self.violations.push(Violation { class: class.to_string(), what, case });
         }
     }
 
